@@ -71,12 +71,19 @@ func c20(r *Run) {
 		}
 		byMarker[string(c.marker[:])] = c
 		dst := r.Addr(form)
+		cancelAfter := time.Duration(-1)
+		if ch.Chance(1, 3, "call.cancel") {
+			cancelAfter = time.Duration(ch.Intn(int(2*time.Second), "call.cancel.at"))
+		}
 		r.After(time.Duration(r.Rng.Int63n(int64(span))), "call", func() {
+			ctx, cancel := context.WithTimeout(context.Background(), 30*time.Second)
 			r.Go(fmt.Sprintf("call%d", i), func() any {
-				ctx, cancel := context.WithTimeout(context.Background(), 30*time.Second)
 				defer cancel()
 				return s.Query(ctx, dht.NewAddr(dst), "ping", dht.QueryInput{MsgArgs: krpc.MsgArgs{Target: c.marker}, RateLimiting: c.rl, NumTries: c.tries})
 			})
+			if cancelAfter >= 0 {
+				r.After(cancelAfter, "cancel", func() { r.FaultHit("ctx-cancel"); cancel() })
+			}
 		})
 	}
 	attempts := map[string]int{}
